@@ -203,12 +203,17 @@ func c13MakeFault(r *runner.Rng, t *term.Term, g *term.Gen) *c13Fault {
 			case 6, 7:
 				want = term.BoolT
 			}
-			n := pick(func(x *term.Term) bool { return x.T == want && x.K != term.KPointer && term.Print(x, term.PrintOpts{}) != "" }, strict)
+			n := pick(func(x *term.Term) bool {
+				return x.T == want && x.K != term.KPointer && term.Print(x, term.PrintOpts{}) != ""
+			}, strict)
 			if n == nil {
 				continue
 			}
 			sc := g.Sc
-			id := func(nm string) *term.Term { x, _ := term.Ident(&term.Scope{Env: envs.EnvType, AllowAny: true}, nm); return x }
+			id := func(nm string) *term.Term {
+				x, _ := term.Ident(&term.Scope{Env: envs.EnvType, AllowAny: true}, nm)
+				return x
+			}
 			var bad, target *term.Term
 			cls := ""
 			switch kind {
